@@ -57,11 +57,11 @@ func childEnv(role string, extra ...string) []string {
 	return append(append(env, "ENUM_WORKER="+role), extra...)
 }
 
-func spawnWorker(exe, tier, progPath, fp string, nspaces int) (*proc, error) {
+func spawnWorker(exe, tier, progPath, loopersPath, fp string, nspaces int) (*proc, error) {
 	w := &proc{progPath: progPath, stderr: &capBuf{}, lines: make(chan string, 256)}
 	w.resetProgress()
 	w.cmd = exec.Command(exe)
-	w.cmd.Env = childEnv("c01", "C01_TIER="+tier, "C01_PROGRESS="+progPath, "GOMAXPROCS="+workerGoProc)
+	w.cmd.Env = childEnv("c01", "C01_TIER="+tier, "C01_PROGRESS="+progPath, "C01_LOOPERS="+loopersPath, "GOMAXPROCS="+workerGoProc)
 	w.cmd.Stderr = w.stderr
 	in, err := w.cmd.StdinPipe()
 	if err != nil {
